@@ -1,4 +1,6 @@
 import Deb822Verif.Props.C04
+import Deb822Verif.Lemmas.DebEditTok
+import Deb822Verif.Lemmas.DebWrapTok
 /-!
 # C04 (tokens) — the history refinement for ANY root child list, bare tokens included
 
@@ -179,5 +181,54 @@ theorem C04_history_oracle_of_any (kids : List DNode) (_hn : AllNodes kids) (ops
     ∧ docItems d'.root = M.order.map (fun h => ((M.paras[h]?).join).getD [])
     ∧ ∀ h ∈ M.order, ∃ m, M.paras[h]? = some (some m) :=
   C04_history_oracle_any kids ops
+
+
+/-! ## the edited document survives a re-read — start = the live result of `wrap_and_sort`
+
+  The root of `deb822Wrap none none d0.tree` holds bare tokens, so the unit-list invariant `UWF` of
+  `Lemmas/DebEditDoc.lean` (one node per unit) does not describe it; `Lemmas/DebEditTok.lean` extends
+  it (`RUnit`, `RInv`): every edit keeps `RInv`, and a document satisfying `RInv` prints the text of
+  a well-formed `DocS` with the same paragraphs (`rinv_flat`: a paragraph absorbs the bare comment
+  lines behind it, as a reader does). -/
+
+/-- every document satisfying the token-aware edit invariant re-reads -/
+theorem rereads_of_runits (kids : List DNode) (us : List RUnit) (hk : kids = rkids us) (h : RInv us) :
+    Rereads kids := by
+  subst hk
+  obtain ⟨huwf, hstr, hcont⟩ := rinv_flat us h
+  have hwf := erase_wf _ huwf
+  have hs : (erase (flat .g us)).str = textList (rkids us) := by rw [erase_str, hstr]
+  refine ⟨erase (flat .g us), hwf, hs, ?_, ?_, ?_⟩
+  · rw [← hs]; exact C03.C03_parse_inverts _ hwf
+  · rw [← hs]; exact (C03.C03_accept _ hwf).1
+  · rw [docItems_tree, erase_content, hcont]; rfl
+
+/-- **whole histories on a wrapped document**: `w` = the live result of
+    `Deb822::wrap_and_sort(None, None)` on a parsed well-formed document (free-standing comment
+    lines are bare tokens under its root, the blank lines around them are gone), ANY handles on it,
+    any sequence of field edits and paragraph operations with valid arguments: the printed document
+    is accepted by the strict reader without error and reads back to exactly the live paragraphs
+    that have a field, in order (`C04_reread_history` with start `w`). -/
+theorem C04_reread_history_wrapped (d0 : DocS) (hwf : d0.WF) (w : DNode)
+    (hw : deb822Wrap none none d0.tree = some w) (d : Doc) (hd : d.kids = w.children)
+    (ops : List EditOp) (hv : ∀ o ∈ ops, o.Valid) :
+    let d' := run d ops
+    ∃ s : DocS, s.WF ∧ s.str = d'.root.text ∧ parse d'.root.text = ⟨s.tree, []⟩
+      ∧ readStrict d'.root.text = .ok s.tree
+      ∧ docItems s.tree = (docItems d'.root).filter nonEmpty := by
+  have hw' : w = .node .ROOT (rkids (wrapUnits d0)) := by
+    have := deb822Wrap_runits d0
+    rw [hw] at this; exact Option.some.inj this
+  obtain ⟨us', h1, h2⟩ := run_runits ops (wrapUnits d0) d (rinv_wrapUnits d0 hwf)
+    (by rw [hd, hw']; rfl) hv
+  exact rereads_of_runits _ us' h1 h2
+
+/-! ### non-vacuity -/
+
+example : C03.exDoc.WF := by decide
+example : ∀ o ∈ exOps, o.Valid := by decide
+/-- the wrapped example document is outside the reach of the node-only theorems -/
+example : ¬ AllNodes (rkids (wrapUnits C03.exDoc)) := by decide +kernel
+example : RInv (wrapUnits C03.exDoc) := by decide +kernel
 
 end Deb822Verif.Props.C04Tokens
